@@ -1,3 +1,40 @@
-From DSG Require Import Base Dsg Sel SelP Problem.
-Theorem C07_placeholder : True. Proof. exact I. Qed.
-Print Assumptions C07_placeholder.
+(* C07 — activeness and imputation follow one contract. *)
+From DSG Require Import Base Dsg Sel SelP DesVar Problem ProblemP.
+From Coq Require Import QArith.
+
+(* active => the choice was reached / the design-variable node exists *)
+Theorem C07_active_selection_exists : forall g E x x' act inst dvv s i c opts xi',
+  decode_witness g E Full x x' act inst dvv = Some (Some s) ->
+  nth_error E i = Some (VSel c opts) -> nth_error act i = Some true -> nth_error x' i = Some xi' ->
+  exists o j, lookup s c = Some o /\ nth_error opts j = Some o /\ xi' == inject_Z (Z.of_nat j) /\
+              Reach g s c /\ is_sel g c = true /\ Reach g s o /\ (is_choice g o = false -> In o inst).
+Proof. exact active_sel_describes. Qed.
+Print Assumptions C07_active_selection_exists.
+
+Theorem C07_dv_active_iff_exists : forall g E k x x' act inst dvv s i n d xi xi' a,
+  decode_witness g E k x x' act inst dvv = Some (Some s) ->
+  nth_error E i = Some (VDv n d) -> nth_error x i = Some xi -> nth_error x' i = Some xi' -> nth_error act i = Some a ->
+  (In n inst <-> a = true) /\
+  (In n inst -> xi' == correct d xi /\ exists qv, lookupQ dvv n = Some qv /\ qv == xi') /\
+  (~ In n inst -> xi' == canon d /\ lookupQ dvv n = None).
+Proof. exact dv_present_iff_value. Qed.
+Print Assumptions C07_dv_active_iff_exists.
+
+(* inactive => canonical value *)
+Theorem C07_inactive_canonical : forall g E x x' act inst dvv s i v xi',
+  decode_witness g E Full x x' act inst dvv = Some (Some s) ->
+  nth_error E i = Some v -> nth_error act i = Some false -> nth_error x' i = Some xi' ->
+  match v with VSel _ _ => xi' == 0 | VDv n d => xi' == canon d /\ ~ In n inst end.
+Proof. exact inactive_canonical. Qed.
+Print Assumptions C07_inactive_canonical.
+
+(* in the enumeration of valid designs an active entry always refers to something that exists *)
+Theorem C07_row_active_only_if_exists : forall g E rows r, rows_of g E = Some rows -> In r rows ->
+  exists s J, Adm g s /\ inst_nodes g s = Some J /\
+    forall i v e, nth_error E i = Some v -> nth_error r i = Some e -> (e <> -1)%Z ->
+      match v with
+      | VSel c opts => (exists o, lookup s c = Some o) /\ Reach g s c
+      | VDv n d => In n J
+      end.
+Proof. exact row_active_only_if_exists. Qed.
+Print Assumptions C07_row_active_only_if_exists.
